@@ -97,6 +97,9 @@ def evaluate_contract(mod, fs, func, vals, extra_ns=None):
     ns.update(getattr(mod, "NATIVE_SPEC", {}))
     ns.update(extra_ns or {})
     ns.update(vals)
+    ghost = getattr(mod, "native_ghost", None)     # recompute ghost fields from the concrete state
+    if ghost is not None:
+        ghost(vals)
     for r in fs.requires:
         code = compile_expr(r, defs, fs.clsname, params)
         try:
@@ -125,6 +128,10 @@ def evaluate_contract(mod, fs, func, vals, extra_ns=None):
                 return False, "raised %s although the contract's condition for it (`%s`) is false" % (name, fs.raises[k])
         return False, "raised %s: %s, which the contract does not allow" % (name, e)
     ns["result"] = result
+    if ghost is not None:
+        ghost(vals)
+        if isinstance(result, tuple(type(v) for v in vals.values() if hasattr(v, "__dict__"))):
+            ghost(dict(result=result))
     skipped = 0
     for code, src in zip(comp, fs.ensures):
         try:
